@@ -452,13 +452,19 @@ def hkdf_expand(name, prk, info, L):
         t = hmac(name, prk, t + info + bytes([i])); okm += t
     return okm[:L]
 def pbkdf2(name, pw, salt, c, dklen):
-    _, _, hl = digest_fn(name)
+    """RFC 8018 PBKDF2; PRF = HMAC over the named digest, or (name b2bmac:<n> / b2smac:<n>) keyed BLAKE2 with an n-byte output"""
+    if name.startswith(('b2bmac:', 'b2smac:')):
+        hl = int(name.split(':')[1])
+        prf = (lambda k, m: hashlib.blake2b(m, digest_size=hl, key=k).digest()) if name[2] == 'b' else (lambda k, m: hashlib.blake2s(m, digest_size=hl, key=k).digest())
+    else:
+        _, _, hl = digest_fn(name)
+        prf = lambda k, m: hmac(name, k, m)
     out = b''; i = 0
     while len(out) < dklen:
         i += 1
-        u = hmac(name, pw, salt + struct.pack('>I', i)); acc = int.from_bytes(u, 'big')
+        u = prf(pw, salt + struct.pack('>I', i)); acc = int.from_bytes(u, 'big')
         for _ in range(c - 1):
-            u = hmac(name, pw, u); acc ^= int.from_bytes(u, 'big')
+            u = prf(pw, u); acc ^= int.from_bytes(u, 'big')
         out += acc.to_bytes(hl, 'big')
     return out[:dklen]
 def _salsa20_8(b):
